@@ -527,10 +527,10 @@ def projected(prog: Program, p: SymPath, mode: str) -> tuple:
         if ex[0] == "loop":
             end = "next-attempt"
         elif ex[0] == "return":
-            b = [c for c in calls if c[1].endswith((":_build_outcome", ":_abort_outcome", ":build_exhausted_outcome"))]
+            b = [c for c in calls if c[1].endswith((":_build_outcome", ":_abort_outcome", ":build_exhausted_outcome", ":build_success_outcome", ":build_scheduled_outcome"))]
             if b and b[-1][1].endswith(":_abort_outcome"):
                 end = "aborted"
-            elif b and any(a == "ok=True" for a in b[-1][2]):
+            elif b and (any(a == "ok=True" for a in b[-1][2]) or b[-1][1].endswith(":build_success_outcome")):
                 end = "value"
             else:
                 end = "failed"
